@@ -323,7 +323,11 @@ func checkCall(cc callCase) error {
 			}
 			run(0, func() (string, error) { return grp.GoString(), nil })
 			run(1, func() (string, error) { b := &bytes.Buffer{}; err := grp.Render(b); return b.String(), err })
-			run(2, func() (string, error) { b := &bytes.Buffer{}; err := grp.RenderWithFile(b, jen.NewFile("")); return b.String(), err })
+			run(2, func() (string, error) {
+				b := &bytes.Buffer{}
+				err := grp.RenderWithFile(b, jen.NewFile(""))
+				return b.String(), err
+			})
 			if i == 0 {
 				first = res
 			} else if res != first {
